@@ -29,3 +29,39 @@ package gsfa
 //@   loop 1 invariant next != nil && len(allTransactionLocations) <= limit && limit > 0 && index.ll != nil && index.ll.file != nil
 //@   loop 1 invariant before == nil ==> reachedBefore
 //@   noframe
+
+// ---- write side: ordering between the periodic partial flush and the parked full batches ----
+// A full 1000-entry batch handed to the background writer may stay parked there until the same address fills another batch
+// or the index is closed. The periodic partial flush in Push must therefore not write an address's NEWER remainder while an
+// older batch of it is parked: the only guard is `!a.popRank.has(key)`, so a batch may be handed over only for a key that is
+// ranked AT THAT MOMENT. The rank set lives in a third-party hashmap (trusted): rankedAt(r, key, v) is its membership after
+// the v-th mutation (v = written(r), bumped by Incr and purge); Incr makes the key a member, has reports membership.
+// PROVED in Push: at the hand-over (the operand of the channel send, `clone(current)`) the key is ranked.
+// NOT covered: that purge() never unranks a key whose batch is still parked (it removes the keys with the lowest counts once
+// more than 10 000 distinct counts exist), and the background writer itself (goroutine).
+//@ spec func rankedAt(r *rollingRankOfTopPerformers, key solana.PublicKey, version int) bool
+
+//@ func (*rollingRankOfTopPerformers) Incr
+//@   mode int
+//@   trusted
+//@   requires r != nil
+//@   modifies written(r)
+//@   ensures rankedAt(r, key, written(r))
+
+//@ func (*rollingRankOfTopPerformers) has
+//@   mode int
+//@   trusted
+//@   requires r != nil
+//@   ensures result == rankedAt(r, key, written(r))
+
+//@ func (*rollingRankOfTopPerformers) purge
+//@   mode int
+//@   trusted
+//@   requires r != nil
+//@   modifies written(r)
+
+//@ func (*GsfaWriter) Push
+//@   mode int
+//@   requires a != nil && a.popRank != nil
+//@   fncall clone requires rankedAt(a.popRank, publicKey, written(a.popRank))
+//@   noframe
